@@ -39,6 +39,10 @@ type SBlock struct {
 	// backends skip the class-trie write)
 	DeclaredV0 []string          `json:"declared_v0,omitempty"`
 	NoDef      map[string]string `json:"declared_without_definition,omitempty"`
+	// Sierra definitions handed to Update for class hashes the diff does NOT declare (what sync does for the class
+	// of a deployed contract the state does not know): the definition is registered, no class-trie leaf is written;
+	// a LATER block may declare the class — then the leaf must be written although the definition is already known
+	ExtraDefs []string `json:"definitions_without_declaration,omitempty"`
 	// updates applied on the SAME parent state before this block and then dropped (never part of the chain)
 	Before []Discarded `json:"before,omitempty"`
 }
@@ -398,6 +402,12 @@ func toUpdate(b *SBlock, oldRoot *felt.Felt) (*core.StateUpdate, map[felt.Felt]c
 	for ch, casm := range b.NoDef {
 		f := hexFelt(casm)
 		d.DeclaredV1Classes[hexFelt(ch)] = &f
+	}
+	for _, ch := range b.ExtraDefs {
+		if _, declared := b.Declared[ch]; !declared {
+			classes[hexFelt(ch)] = dummyClass(i)
+			i++
+		}
 	}
 	for _, ch := range b.DeclaredV0 {
 		f := hexFelt(ch)
@@ -1176,6 +1186,15 @@ func genPools(r *lib.RNG) *statePools {
 	return p
 }
 
+func containsStr(xs []string, x string) bool {
+	for _, y := range xs {
+		if y == x {
+			return true
+		}
+	}
+	return false
+}
+
 func permOf(r *lib.RNG, n int) []int {
 	p := make([]int, n)
 	for i := range p {
@@ -1246,6 +1265,15 @@ func genBlock(r *lib.RNG, a *absState, p *statePools, ver string) SBlock {
 	if r.Chance(1, 8) {
 		b.NoDef = map[string]string{lib.Pick(r, []string{"c1a5d", "c1a5e"}): "ca5a1"}
 	}
+	// definitions registered without a declaration (classes of the declaration pool: a later block may declare them)
+	if r.Chance(1, 4) {
+		for i, m := 0, r.Range(1, 2); i < m; i++ {
+			ch := lib.Pick(r, p.classes)
+			if _, ok := a.classes[ch]; !ok && !containsStr(b.ExtraDefs, ch) {
+				b.ExtraDefs = append(b.ExtraDefs, ch)
+			}
+		}
+	}
 	// class trie: 0..5 Sierra declarations and 0..3 CASM-hash migrations per block, every leaf value distinct
 	// (several class-trie leaves written by ONE Update)
 	casmSeq := 0
@@ -1269,6 +1297,16 @@ func genBlock(r *lib.RNG, a *absState, p *statePools, ver string) SBlock {
 			}
 			b.Declared[ch] = casm("ca5a")
 		}
+	}
+	// (a definition for a class this very diff declares is not "extra")
+	if len(b.ExtraDefs) > 0 {
+		var keep []string
+		for _, ch := range b.ExtraDefs {
+			if _, now := b.Declared[ch]; !now {
+				keep = append(keep, ch)
+			}
+		}
+		b.ExtraDefs = keep
 	}
 	for _, i := range permOf(r, len(p.classes)) {
 		ch := p.classes[i]
@@ -1421,6 +1459,14 @@ func genManyContractsCase(r *lib.RNG) *StateCase {
 func directedStateCases() []*StateCase {
 	var out []*StateCase
 	for _, ver := range []string{"0.13.2", "0.14.0"} {
+		// the definition of a class is registered first (class of a deployed contract, fetched by sync), the class is
+		// declared by a later block: the class-trie leaf must be written although the definition is already known
+		out = append(out, &StateCase{Blocks: []SBlock{
+			{Version: ver, Deployed: map[string]string{"abc": "c1a55"}, ExtraDefs: []string{"c1a55"}},
+			{Version: ver, Declared: map[string]string{"c1a55": "ca5a1"}},
+			{Version: ver, Nonces: map[string]string{"abc": "1"}, ExtraDefs: []string{"c1a55", "c1a56"}},
+			{Version: ver, Declared: map[string]string{"c1a56": "ca5a2", "c1a57": "ca5a3"}, Migrated: map[string]string{"c1a55": "ca5b1"}},
+		}})
 		for _, sys := range []string{"1", "2"} {
 			// system contract storage written, then fully zeroed in a later block
 			out = append(out, &StateCase{Blocks: []SBlock{
@@ -2239,6 +2285,17 @@ func classifyState(res *lib.Result, c *StateCase) {
 		}
 		if len(b.NoDef) > 0 {
 			res.Hit("state:declared-without-definition")
+		}
+		if len(b.ExtraDefs) > 0 {
+			res.Hit("state:definition-without-declaration")
+		}
+		for ch := range b.Declared {
+			for m := 0; m < n; m++ {
+				if containsStr(c.Blocks[m].ExtraDefs, ch) {
+					res.Hit("state:class-declared-after-its-definition-was-registered")
+					break
+				}
+			}
 		}
 		if n > 0 && pre014(c.Blocks[n-1].Version) != pre014(b.Version) {
 			_, cr, clr := a.commitment(b.Version, false)
